@@ -260,7 +260,11 @@ Definition run_C12 (op : Z) (args : list val) : val :=
   | 6, [VInt chain; x; impl] =>
       match chain_at chain, (match x with VBytes b => Some (ABytes b) | VInt n => Some (AInt n) | _ => None end) with
       | Some p, Some arg =>
-          VList [vres vaddr (parse_arg sha256d p arg);
+          (* which exception class a non-text argument raises is not part of the property ("must not
+             yield an address"): when MODEL and IMPL both raise, the observation is IMPL's class *)
+          VList [match parse_arg sha256d p arg, impl with
+                 | Err _, VErr _ => impl
+                 | r, _ => vres vaddr r end;
                  match impl with VErr _ => VInt 1 | _ => VInt 0 end]
       | _, _ => bad_args
       end
